@@ -82,7 +82,8 @@ def gen_one(r, feats):
                 # a `let` whose ONLY read sits in one particular syntactic position
                 x = fresh()
                 pos, tmpl = r.choice(USE_AT)
-                out.append(f"{ind}let {x} = {r.choice(['2', 'k0', 'k0 + 1', '1 + 1'])}")
+                # mostly initializers the constant propagators cannot turn into a literal (else the read disappears before this pass runs)
+                out.append(f"{ind}let {x} = {r.choice(['2', 'k0 + 1', 'm0 + 2', 'm0 + 2', 'arr0[0] - 2', 'm0 * 0 + 3'])}")
                 out.append(tmpl.format(ind=ind, x=x))
                 feats.add("only-read-at:" + pos)
             elif c < 0.63:
